@@ -1,5 +1,5 @@
 CONSTANTS
- MaxExp = 340
+ MaxExp = 120
 INIT Init
 NEXT Next
 INVARIANT Emit
